@@ -69,6 +69,9 @@ def handle (op : String) (a : Json) : Except String Json := do
     let fill ← fldOptRat a "fill"
     return aexceptJ rasterJ (rasterizeM t (tbls.map maskOfTable) (← fldNat a "n")
       (values.getD (.one defaultValue)) (fill.getD defaultFill))
+  | "param_order" =>
+    -- the signature order of the model (the harness passes positional arguments in this order)
+    return arrJ (paramOrder.map Json.str)
   | "bin_of" =>
     return natJ (binOf (← getRatList (← fld a "coords")) (← fldRat a "v"))
   | "box_rule" =>
